@@ -86,8 +86,25 @@ func (a *c06Acc) eval(cell string) {
 func (a *c06Acc) count(k string, n int64) { a.Counters[k] += n }
 func (a *c06Acc) viol(sig, summary string, d c06Case) {
 	a.ViolN[sig]++
-	if a.ViolN[sig] <= 4 {
-		a.Viols = append(a.Viols, c06Viol{sig, summary, d})
+	a.keep(c06Viol{sig, summary, d})
+}
+
+// keep retains up to 4 witnesses per signature, preferring the shortest inputs (the most readable reproductions).
+func (a *c06Acc) keep(v c06Viol) {
+	n, longest := 0, -1
+	for i, x := range a.Viols {
+		if x.Sig == v.Sig {
+			n++
+			if longest < 0 || len(x.Detail.Input) > len(a.Viols[longest].Detail.Input) {
+				longest = i
+			}
+		}
+	}
+	switch {
+	case n < 4 && len(a.Viols) < 80:
+		a.Viols = append(a.Viols, v)
+	case longest >= 0 && len(v.Detail.Input) < len(a.Viols[longest].Detail.Input):
+		a.Viols[longest] = v
 	}
 }
 
@@ -105,15 +122,7 @@ func (a *c06Acc) merge(b *c06Acc) {
 		a.ViolN[k] += v
 	}
 	for _, v := range b.Viols {
-		n := 0
-		for _, x := range a.Viols {
-			if x.Sig == v.Sig {
-				n++
-			}
-		}
-		if n < 4 && len(a.Viols) < 60 {
-			a.Viols = append(a.Viols, v)
-		}
+		a.keep(v)
 	}
 	for _, s := range b.Samples {
 		if len(a.Samples) < 40 {
